@@ -9,7 +9,7 @@ from symnp.runner import Case
 
 OUTSIDE = ('the restoration clauses (consistent order for every permutation field, 70 % majority / two-thirds overlap condition of '
            'DHTV) need F >= 9 bins and T >= 8 frames of symbolic mask: path explosion, not decided; plan coverage by CrossHair for '
-           'STFT sizes up to 20 (quick) / 64 (thorough), the shipped 512 / 1024 defaults concretely; net reordering with the '
+           'STFT sizes up to 20 (quick) / 32 (thorough; 34..64 not run in round 1), the shipped 512 / 1024 defaults concretely; net reordering with the '
            'per-bin assignment replaced by an arbitrary-permutation stub (K=3, F=3)')
 
 PERMS3 = [(0, 1, 2), (1, 0, 2), (0, 2, 1), (1, 2, 0)]
@@ -180,7 +180,7 @@ def h_plan_defaults(env):
 def cases(tier):
     q = tier == 'quick'
     cs = []
-    for size in (range(2, 21, 2) if q else range(2, 65, 2)):
+    for size in (range(2, 21, 2) if q else range(2, 33, 2)):
         cs.append(Case('plan/size%d' % size, h_plan, dict(size=size, timeout=120 if size <= 20 else 900), bounds='stft_size %d, all segment_start / width / shift with shift <= width' % size,
                        cosim=1, budget_s=1200))
     cs.append(Case('plan/defaults', h_plan_defaults, dict(), bounds='shipped defaults for 512 and 1024 (concrete)', cosim=1))
